@@ -26,7 +26,7 @@ RULE = (
     'rows over all steps inside the intervals of recession_interval (recomputed from the base tables), curvature '
     'must be m/km2 * 1e-3, transmissivity must be in m2/d; the table must list (level mm, measured d, simulated d) '
     'from the highest to the lowest level and --observations must equal its third column; with zero curvature and '
-    'constant specific yield, ET is also read off consecutive rows of the output (black box).  Non-trivial: ET and '
+    'constant specific yield, ET is also read off consecutive rows of the output (black box).  A third of the spline parameter sets of the function-level workload are the previous set with other conductivities / minimum transmissivity / specific yields on the same knot positions (the next step of a calibration in one process).  Non-trivial: ET and '
     'curvature both positive with the grid crossing >= 1 knot of each function; for the command: ET whose first-step '
     'average differs from the interval average by > 5 %.'
 )
@@ -45,6 +45,7 @@ REQUIRED = {
         'zero-curvature-water-balance-checked': 8,
         'peatclsm-cases': 5,
         'integer-typed-grids': 4,
+        'parameter-sets-sharing-knot-positions-with-the-previous-one': 8,
         'cli-mixed-parameter-kinds': 2,
         'cli-et-checked-against-interval-average': 6,
         'cli-et-first-step-average-differs-by-5-percent': 3,
@@ -97,11 +98,27 @@ def build_functions(psy, pT):
 _PREVIOUS_GRID = {}
 
 
-def make_functions(rng, kind):
+_PREVIOUS_PARAMS = {}
+
+
+def make_functions(rng, kind, rec=None):
     if kind == 'spline':
-        psy = gen_params.spline_sy(rng)
-        lo, hi = psy['zeta_knots_mm'][0], psy['zeta_knots_mm'][-1]
-        pT = gen_params.spline_T(rng, z_lo=lo - rng.uniform(0, 0.5) * (hi - lo))
+        prev = _PREVIOUS_PARAMS.get('spline')
+        if prev is not None and rng.random() < 0.35:
+            # the next step of a calibration in one process: the same knot positions, other
+            # conductivities / specific yields / minimum transmissivity
+            psy, pT = dict(prev[0]), dict(prev[1])
+            pT['K_knots_km_d'] = [k * 10 ** rng.uniform(-1.5, 1.5) for k in pT['K_knots_km_d']]
+            pT['minimum_transmissivity_m2_d'] = pT['minimum_transmissivity_m2_d'] * rng.choice([0.5, 1.0, 3.0])
+            if rng.random() < 0.5:
+                psy['sy_knots'] = [min(1.0, max(0.01, v * rng.uniform(0.7, 1.3))) for v in psy['sy_knots']]
+            if rec is not None:
+                rec.hit('parameter-sets-sharing-knot-positions-with-the-previous-one')
+        else:
+            psy = gen_params.spline_sy(rng)
+            lo, hi = psy['zeta_knots_mm'][0], psy['zeta_knots_mm'][-1]
+            pT = gen_params.spline_T(rng, z_lo=lo - rng.uniform(0, 0.5) * (hi - lo))
+        _PREVIOUS_PARAMS['spline'] = (psy, pT)
     else:
         psy = gen_params.peatclsm_sy(rng) if rng.random() < 0.5 else dict(gen_params.PUBLISHED_SY)
         pT = dict(gen_params.PUBLISHED_T, zeta_max_cm=rng.choice([1.0, 5.0, 30.0]), Ksmacz0=10 ** rng.uniform(-2, 1))
@@ -120,7 +137,7 @@ def check_function_case(ctx, rng, kind, combo, fixed=None):
         sy, T, ceiling, breaks = build_functions(psy, pT)
         return verify_function_case(ctx, rng, fixed['param_kind'], combo, psy, pT, sy, T, breaks,
                                     np.array(fixed['grid']), fixed['et'], fixed['kappa'], fixed['mean'])
-    psy, pT, sy, T, ceiling, breaks = make_functions(rng, kind)
+    psy, pT, sy, T, ceiling, breaks = make_functions(rng, kind, rec)
     lo = psy['zeta_knots_mm'][0] if kind == 'spline' else -600.0
     hi = min(ceiling, psy['zeta_knots_mm'][-1] + 50.0 if kind == 'spline' else ceiling)
     if hi <= lo:
